@@ -117,6 +117,15 @@ def main(tier, seed):
     finally:
         pool.close()
     rep.notes.append('long lists (25 and 60 entries): %d sampled decision vectors' % resl['exports'])
+    # very long lists (300 entries, beyond one byte / beyond CPython's small-integer cache): only the end-of-run laws
+    pool = engine.Pool()
+    try:
+        resv = engine.tlc_replay(rep, pool, 'MC_Ties', replay, consts={'N': 0, 'Variants': {'rev'}, 'WithFiles': False, 'LongNs': {300}},
+                                 invariants=['OrderPreserved', 'SameRankIffTied', 'DenseRanks', 'Export'], on_result=on_result, timeout=3000,
+                                 simulate=(2 if tier == 'quick' else 8, 1300), seed=seed + 7, label='MC_Ties lists of 300 entries (sampled)')
+    finally:
+        pool.close()
+    rep.notes.append('lists of 300 entries: %d sampled decision vectors' % resv['exports'])
     # lists of ANY length: the finite abstraction of the two automata (TiesAbs.tla), bridged to the concrete
     # automata by the action properties WriterBridge / ReaderBridge checked above
     ra = tlc.run('TiesAbs', spec='ASpec', invariants=['SameRankIffTiedA', 'IncZeroOrOne', 'DepthZeroOne', 'BalancedAtEnd', 'OpenMeansTied', 'InSync'],
